@@ -51,3 +51,49 @@ pub(crate) fn pump_step(step: PumpStep) {
         }
     });
 }
+
+/// One call of `BudgetEnforcer::observe`, logged on entry: the event about to be counted and
+/// the enforcer's state before it.
+#[derive(Clone, Debug, PartialEq, Eq)]
+pub struct BudgetStep {
+    pub kind: &'static str,
+    pub anchor: usize,
+    pub bytes: usize,
+    pub merge_key: bool,
+    pub expanded: bool,
+    pub per_document: bool,
+    pub events: usize,
+    pub nodes: usize,
+    pub depth: usize,
+    pub max_depth: usize,
+    pub aliases: usize,
+    pub anchors: usize,
+    pub scalar_bytes: usize,
+    pub merge_keys: usize,
+    pub documents: usize,
+    pub containers: usize,
+    /// 1 / 0: the innermost container is a mapping expecting a key / a value; -1 a sequence; -2 none
+    pub top_expecting_key: i8,
+}
+
+thread_local! {
+    static BUDGET_TRACE: std::cell::RefCell<Option<Vec<BudgetStep>>> = const { std::cell::RefCell::new(None) };
+}
+
+/// Start logging budget steps on this thread (off by default).
+pub fn budget_trace_begin() {
+    BUDGET_TRACE.with(|t| *t.borrow_mut() = Some(Vec::new()));
+}
+
+/// Stop logging and return the steps logged since `budget_trace_begin`.
+pub fn budget_trace_end() -> Vec<BudgetStep> {
+    BUDGET_TRACE.with(|t| t.borrow_mut().take()).unwrap_or_default()
+}
+
+pub(crate) fn budget_step(step: BudgetStep) {
+    BUDGET_TRACE.with(|t| {
+        if let Some(v) = t.borrow_mut().as_mut() {
+            v.push(step);
+        }
+    });
+}
